@@ -6,8 +6,8 @@
              arithmetic overflow in a debug build, capacity overflow) -> exit 101
    Byte offsets vs. character indices: len, substring, index_of, insert, delete, split work in UTF-8
    BYTES (Rust str::len / find / slicing / insert_str / split_at); indexing, chars, reverse in CHARACTERS.
-   Definitions named *_head describe the arm as it is at the pinned HEAD where a `fix:` patch
-   (fixes/c14-builtins.diff) changes it; the un-suffixed definition is the repaired arm. *)
+   Definitions named *_head describe the arm as it was before a `fix:` commit (fixes/c14-*.diff:
+   delete-range, parse-0x-prefix, bigint-index) repaired it; the un-suffixed definition is the current arm. *)
 From MS Require Import Base.Str Builtins.Val Builtins.Utf8 Builtins.Numeral.
 Open Scope Z_scope.
 
